@@ -42,6 +42,9 @@ void AllForms() {
   Sink(yaclib::WhenAll<P>(U<V>(), U<std::string>()));
   Sink(yaclib::WhenAll<P>(U<V>(), S<std::string>(), U<double>()));
   Sink(yaclib::WhenAll<P>(S<V>(), S<std::string>()));
+  // static, tuple output with a core type repeated among the inputs (index bookkeeping: by position, not by type)
+  Sink(yaclib::WhenAll<P>(U<V>(), U<std::string>(), U<V>()));
+  Sink(yaclib::WhenAll<P>(U<std::string>(), U<V>(), U<V>(), S<V>(), S<V>()));
   // dynamic
   std::vector<Future<V>> us;
   Sink(yaclib::WhenAll<P>(us.begin(), us.end()));
